@@ -93,12 +93,18 @@ func setup(c combo, seed int64, idx int) (dir string, db sopx.DB, before, after 
 	return dir, db, b, b.Apply(prog), prog, nil
 }
 
-func read(db sopx.DB, mode string) sopx.Dump {
+func read(db sopx.DB, mode string) (d sopx.Dump) {
 	m := sop.ForReading
 	if mode == "nocheck" {
 		m = sop.NoCheck
 	}
-	d := sopx.Dump{By: map[string]sopx.StoreDump{}, Stores: []string{"alpha"}}
+	d = sopx.Dump{By: map[string]sopx.StoreDump{}, Stores: []string{"alpha"}}
+	defer func() {
+		// a reader that panics inside the library (inconsistent tree) is recorded as an unreadable store
+		if rec := recover(); rec != nil {
+			d.By["alpha"] = sopx.StoreDump{Err: fmt.Sprintf("reader panicked: %v", rec)}
+		}
+	}()
 	t, err := db.Begin(m, time.Minute)
 	if err != nil {
 		d.Err = err.Error()
